@@ -25,7 +25,7 @@
  *       (bytes in the gaps between strided elements must keep their value)               */
 uint32 g_k;
 uint8  g_s[8];
-size_t g_o;
+uint32 g_o;
 uint8  g_ov;
 
 #define B(p) ((uint8 *)(p))
@@ -59,7 +59,7 @@ uint8  g_ov;
 /* ghosts are in range (only meaningful when there is at least one element) */
 #define DFK_GHOSTS(W) (num_elm == 0 || (g_k < num_elm && g_o < DEXT(W)))
 /* gap bytes exist only between two or more strided elements */
-#define DFK_IN_GAP(W) (num_elm >= 2 && g_o % EDS(W) >= (W))
+#define DFK_IN_GAP(W) (num_elm >= 2 && g_o % (uint32)EDS(W) >= (W))
 
 /* ---------------- harness vocabulary ---------------- */
 #define SNAPSHOT_1(p, o) (g_s[0] = (p)[(o)])
@@ -136,7 +136,7 @@ uint8  g_ov;
     DFK_BUFFERS;                                                                                     \
     uint8 *d   = in_place ? src : dst;                                                               \
     H4V_HAVOC(uint32, g_k);                                                                          \
-    H4V_HAVOC(size_t, g_o);                                                                          \
+    H4V_HAVOC(uint32, g_o);                                                                          \
     if (num_elm >= 1) {                                                                              \
         H4V_ASSUME(g_k < num_elm && g_o < dbytes);                                                   \
         SNAPSHOT_##W(src, ESS(W) * g_k);                                                             \
@@ -159,7 +159,7 @@ uint8  g_ov;
     H4V_ND_BUF(uint8, src, 1, 1);                                                                    \
     H4V_ND_BUF(uint8, dst, 1, 1);                                                                    \
     H4V_HAVOC(uint32, g_k);                                                                          \
-    H4V_HAVOC(size_t, g_o);                                                                          \
+    H4V_HAVOC(uint32, g_o);                                                                          \
     uint8 *s = snull ? NULL : src;                                                                   \
     uint8 *d = dnull ? NULL : in_place ? s : dst;                                                    \
     int    r = FN(s, d, 0, source_stride, dest_stride);                                              \
@@ -178,7 +178,7 @@ uint8  g_ov;
     H4V_ND_BUF(uint8, dst, W, 8);                                                                    \
     uint8 *d = in_place ? src : dst;                                                                 \
     H4V_HAVOC(uint32, g_k);                                                                          \
-    H4V_HAVOC(size_t, g_o);                                                                          \
+    H4V_HAVOC(uint32, g_o);                                                                          \
     H4V_ASSUME(g_k == 0 && g_o < (W));                                                               \
     SNAPSHOT_##W(src, 0);                                                                            \
     g_ov  = d[g_o];                                                                                  \
